@@ -12,7 +12,7 @@ CHECKS = {
    text="All 14 decoders run on >1.3M (quick) hostile inputs derived systematically from valid packets (all prefixes, all single-bit flips, length/flag rewrites) and random bytes, each in a slice with cap==len so any over-read is a bounds panic; oracle checks no panic, byte count, field address ranges and acceptance of strict-valid packets. Every input is decoded a second time into a long-lived, much-used message object of the type: same verdict, count and fields, nothing outside the input. Accepted packets are also decoded from a buffer with bytes behind them and changed through the setters: those bytes must stay untouched.",
    note="no unsafe/cgo in the library, so Go bounds checks make over-reads observable; reference decoder defines 'well-formed'", ref="3/C04"),
  "C06": dict(cat="exploration", tech="reference-model oracle (MQTT 4.7 matcher + map model) over an exhaustive small scope and random API histories of topics.NewMemProvider()",
-   text="All 779 filters of <=4 levels over {a,b,empty,+,#} x all names of <=4 levels over {a,b,empty} x 3 QoS are decided against the specification matcher on the real topic store (Subscribers and Retained), and thousands of random subscribe/unsubscribe/retain histories are compared with a map model after every operation. Exhaustive for that scope only; histories are sampled. Concurrent histories (one subscriber per goroutine, untouched bystanders, union of the models at quiescence) are checked as well. Result slices are reused across lookups as the service does; every history ends by draining the store.",
+   text="All 779 filters of <=4 levels over {a,b,empty,+,#} x all names of <=4 levels over {a,b,empty} x 3 QoS are decided against the specification matcher on the real topic store (Subscribers and Retained), and thousands of random subscribe/unsubscribe/retain histories are compared with a map model after every operation. Exhaustive for that scope only; histories are sampled. Concurrent histories (one subscriber per goroutine, untouched bystanders, union of the models at quiescence) are checked as well. Result slices are reused across lookups as the service does; every history ends by draining the store. A second exhaustive scope (three levels) has a literal that begins with '$'.",
    note="trusted: spec.Match (20 lines from section 4.7); known finding F-C06-1 (empty levels) is recognised by a classifier predicate, anything else is reported", ref="3/C06"),
  "C13": dict(cat="exploration", tech="list-model oracle over exhaustively enumerated operation sequences and random histories; porcupine linearizability check of concurrent histories",
    text="Every register/ack/collect sequence up to depth 6 (ids {1,2}) and 5 (ids {1,2,3}) is executed on a fresh real queue and compared with a FIFO list model incl. byte-identity of the copies; long random histories exercise growth and wrap; concurrent histories are checked with porcupine. Bounded exhaustive + sampling. Growth of a full, wrapped queue while an acknowledgement is in progress is enumerated separately (ack message with a dwelling Encode). Lists handed back by Acked are kept and must stay unchanged by later calls. Requests sized at the boundaries of the remaining-length field must be handed back byte-identical. An identifier whose entry is finished but not yet collected is free for a new registration; acknowledgements of one kind vary in length.",
@@ -36,10 +36,10 @@ CHECKS = {
    text="Every way a connection can end in the harness (7 endings incl. injected read errors and virtual-time keep-alive expiry) is crossed with will parameters and CleanSession histories; the witness must see this connection's will exactly once, or never after DISCONNECT. Also: final bytes delivered together with io.EOF by the transport, and refused CONNECTs naming the victim client id under an authenticator. Also: the connection's processor parked on its own full outgoing ring when the connection ends.",
    note="trusted: synctest virtual time; teardown-finished hook events counted per connection", ref="3/C09"),
  "C10": dict(cat="exploration", tech="session-model monitor over wire histories at synctest quiescence (CONNACK flag + probe publishes)",
-   text="Generated connect/subscribe/unsubscribe/end histories over three client ids; SessionPresent and the set of active subscriptions after every (re)connect are compared with a model of the state kept by CleanSession=0 connections, using probe publishes and the C01 delivery oracle. Also: sessions of 1000..40000 filters probed the instant the first PINGRESP is read (real time), and resume attempts over a transport whose CONNACK write fails. Every third CONNECT carries a will.",
+   text="Generated connect/subscribe/unsubscribe/end histories over three client ids; SessionPresent and the set of active subscriptions after every (re)connect are compared with a model of the state kept by CleanSession=0 connections, using probe publishes and the C01 delivery oracle. Also: sessions of 1000..40000 filters probed the instant the first PINGRESP is read (real time), and resume attempts over a transport whose CONNACK write fails. Every third CONNECT carries a will. A steered race: a second CONNECT of a brand-new identifier arriving between the creation and the initialisation of the first one's session.",
    note="trusted: synctest quiescence, the 20-line session model", ref="3/C10"),
  "C11": dict(cat="exploration", tech="first-packet product monitor at synctest quiescence with witness subscriber, retained-store and session probes; virtual-time connect timeout",
-   text="About 1600 first packets (all types, CONNECT field/flag product, malformed variants) under three authenticators, each followed by a tail of effective packets; answers and absence of any effect are checked at quiescence. Every first packet is also sent in two pieces and byte by byte / in three pieces, and with 5 KiB / 64 KiB wills. Groups of acceptable CONNECTs sent at the same moment (same new client id or different ids) must all be answered with CONNACK 0. Connections without an accepted CONNECT must not delay a new client's CONNACK (broker process behind a real listener).",
+   text="About 1600 first packets (all types, CONNECT field/flag product, malformed variants) under three authenticators, each followed by a tail of effective packets; answers and absence of any effect are checked at quiescence. Every first packet is also sent in two pieces and byte by byte / in three pieces, and with 5 KiB / 64 KiB wills. Groups of acceptable CONNECTs sent at the same moment (same new client id or different ids) must all be answered with CONNACK 0. Connections without an accepted CONNECT must not delay a new client's CONNACK (broker process behind a real listener). Refusals are also sent through the TCP/TLS accept loops and the websocket proxy with the client silent afterwards: its connection must end.",
    note="refusal code set derived from the applicable reasons; policy-dependent ids may go either way", ref="3/C11"),
  "C19": dict(cat="exploration", tech="virtual-time monitor (testing/synctest) of keep-alive expiry and PINGREQ/PINGRESP with a will witness",
    text="All 84 combinations of K and activity pattern run in virtual time; drop time after the last byte is measured exactly (observed 1.2 K), active clients survive 50 intervals, expiry publishes the will once. Now 138 pattern runs (mid-packet silence, uneven pacing just inside K, pings behind a near-ring-size packet) plus real-time window cells in which the expiry meets a goroutine held in its check-to-Wait window. A successor connection with the same client id that is active must survive the silent one's expiry, and the will published is the silent connection's. A client that stopped reading and filled its own outgoing ring before falling silent must be dropped like any other.",
